@@ -16,7 +16,7 @@ TRUSTED = ["Model/Param.lean models IpmParamReader (index scan, row filter, colu
            "record list of the VBS model; mci_parameter_tables is re-translated from /repo on every run"]
 ASSUMPTIONS = ["single-byte codecs; csv module trusted for the CSV comparison"]
 
-FILL = 'abcdefghijklmnopqrstuvwxyzABCDEFGHIJKLMNOPQRSTUVWXYZ0123456789 .-,,"'
+FILL = 'abcdefghijklmnopqrstuvwxyzABCDEFGHIJKLMNOPQRSTUVWXYZ0123456789 .-,,"' + "\\\x00\x7f';%|\xa0"  
 
 
 def layouts():
